@@ -35,7 +35,7 @@ def main():
         d = d.rstrip('/')
         meta = json.load(open(os.path.join(d, 'meta.json')))
         pid = meta['property']
-        name = '%s_%s' % (pid, os.path.basename(d))
+        name = os.path.basename(d) if os.path.basename(d).startswith(pid + '_') else '%s_%s' % (pid, os.path.basename(d))
         rec = {'name': name, 'property': pid, 'summary': meta.get('summary'), 'needs': meta.get('needs')}
         assert sh('git -C %s status --short' % REPO).stdout.strip() == '', '/repo is not clean'
         rec['demo_clean_exit'], _ = demo(os.path.join(d, 'demo.py'))
@@ -80,9 +80,12 @@ def main():
         if ok:
             dst = os.path.join(HERE, 'seeded', name)
             os.makedirs(dst, exist_ok=True)
-            shutil.copy(os.path.join(d, 'patch.diff'), dst)
-            shutil.copy(os.path.join(d, 'demo.py'), dst)
-            meta2 = dict(meta)
+            if os.path.realpath(d) != os.path.realpath(dst):
+                shutil.copy(os.path.join(d, 'patch.diff'), dst)
+                shutil.copy(os.path.join(d, 'demo.py'), dst)
+            meta2 = {k: v for k, v in meta.items() if k not in ('check_results', 'first_replay', 'ran')}
+            if 'first_pass' not in meta2 and 'check_results' in meta:
+                meta2['first_pass'] = {'check_results': meta['check_results']}
             meta2.update({'breaks': pid, 'needs_to_manifest': meta.get('needs'),
                           'ran': ['git -C /repo apply patch.diff', 'pytest (repository suite): ' + rec['tests'],
                                   'demo.py on clean tree: exit %d; with the change: exit %d' % (rec['demo_clean_exit'], rec['demo_patched_exit']),
